@@ -128,8 +128,29 @@ class ContractMixin:
         return sym
 
     # ------------------------------------------------------------------ spec evaluation
-    def spec_bool(self, clause, st: State, env: dict, old=None):
+    def contract_module(self, c):
+        """the module whose namespace a contract's clauses are written in (the callee's own module)"""
+        m = getattr(c, "_module", None)
+        if m is None:
+            try:
+                modname, _ = extract.split_qualname(c.qualname)
+                m = extract.get_module(modname)
+            except Exception:
+                m = False
+            c._module = m
+        return m or None
+
+    def spec_bool(self, clause, st: State, env: dict, old=None, module=None):
         """Evaluate a clause (Python expression) to a z3 Bool in spec mode."""
+        saved_module = self.module
+        if module is not None:
+            self.module = module
+        try:
+            return self._spec_bool(clause, st, env, old)
+        finally:
+            self.module = saved_module
+
+    def _spec_bool(self, clause, st: State, env: dict, old=None):
         saved = (self.spec_mode, st.env, st.notes.get("old_ctx"), st.guards)
         self.spec_mode = True
         st.env = dict(env)
@@ -240,18 +261,19 @@ class ContractMixin:
             f = uf("fn:" + c.qualname, *([V] * len(flat)), V)
             return unbox(c.result, f(*flat) if flat else CONSTS.get("fn", c.qualname), st)
         # ghost lets of the callee contract
+        cmod = self.contract_module(c)
         for name, expr in c.lets:
-            env[name] = self.spec_value(expr, st, env)
+            env[name] = self.spec_value(expr, st, env, module=cmod)
         # preconditions become obligations of the caller
         for cl in c.requires_:
-            goal = self.spec_bool(cl, st, env)
+            goal = self.spec_bool(cl, st, env, module=cmod)
             self.collector.add(Obligation(f"{self.kernel.qualname}#pre.{c.qualname.split('.')[-1]}.{cl.name}@{getattr(node, 'lineno', 0)}",
                                           "pre", st.hyps(), goal, where, self.kernel.qualname))
         # exceptions
         raise_conds = []
         for exc, when in c.exc_.items():
             if when is not None:
-                w = self.spec_bool(when, st, env)
+                w = self.spec_bool(when, st, env, module=cmod)
                 if when.on == "iff":
                     cond = w
                 else:
@@ -280,7 +302,7 @@ class ContractMixin:
         for cl in c.ensures_:
             if cl.on == "raise":
                 continue
-            f = self.spec_bool(cl, st, env2, old=(env, old_heap))
+            f = self.spec_bool(cl, st, env2, old=(env, old_heap), module=cmod)
             st.assume(f if ok is None else z3.Implies(ok, f))
         return res
 
@@ -293,7 +315,16 @@ class ContractMixin:
             return unbox(c.result, t, st)
         return self.fresh_sym(st, "res_" + c.qualname.split(".")[-1].replace(":", "_"), c.result)
 
-    def spec_value(self, expr: str, st, env) -> Sym:
+    def spec_value(self, expr: str, st, env, module=None) -> Sym:
+        saved_module = self.module
+        if module is not None:
+            self.module = module
+        try:
+            return self._spec_value(expr, st, env)
+        finally:
+            self.module = saved_module
+
+    def _spec_value(self, expr: str, st, env) -> Sym:
         saved = (self.spec_mode, st.env, st.guards)
         self.spec_mode = True
         st.env = dict(env)
